@@ -32,7 +32,7 @@ PLAN = {
     "C02": dict(
         title="Each layer's forward pass computes its defining operator",
         level="proof",
-        verus=["C02_convolve.rs", "C02_deconv_forward.rs"],
+        verus=["C02_convolve.rs", "C02_deconv_forward.rs", "C02_pad3d.rs"],
         kani=True,
         undecided_clauses=["max-pool window maximum, dense W x + b, flat == spatial, zero padding (pad3d), network = composition: units under construction"],
     ),
@@ -100,10 +100,10 @@ PLAN = {
     "C15": dict(
         title="Element-wise tensor arithmetic is exact, rank-generic and shape-checked",
         level="proof",
-        verus=["C15_tensor_ops.rs"],
+        verus=["C15_tensor_ops.rs", "C15_transpose.rs"],
         kani=True,
         undecided_clauses=["iterator zips over more cells than the listed small shapes (the element formula itself is proved for every cell)",
-                           "transpose beyond 1x2 / 2x2 (CBMC solver error on larger ones)", "nested-list add / div (recursion over Tensor)"],
+                           "nested-list add / div (recursion over Tensor)"],
     ),
     "C16": dict(
         title="Skip connections combine source and target inputs as configured",
